@@ -70,6 +70,12 @@ type OpRec struct {
 	ReadOnly              bool // inside a STATICCALL context (best effort: any enclosing STATICCALL frame)
 }
 
+// SuicideRec is one executed SELFDESTRUCT.
+type SuicideRec struct {
+	Frame int
+	Addr  common.Address
+}
+
 // Tracer implements vm.Tracer (DESIGN.md §3.4).
 type Tracer struct {
 	// EnforceAccessList re-enables access-list checking when the top-level call starts: with
@@ -84,6 +90,8 @@ type Tracer struct {
 	Steps  int
 	// counters of every opcode kind executed that moves value (for labels / non-trivial rules)
 	Counts map[string]int
+	// every SELFDESTRUCT that started executing (frame it ran in, account destroyed)
+	Suicides []SuicideRec
 
 	open    []*Frame         // open frames, index = depth-1
 	pending map[int]*OpRec   // depth -> op awaiting its after-observation
@@ -328,6 +336,7 @@ func (t *Tracer) event(env *vm.EVM, pc uint64, op vm.OpCode, gas uint64, scope *
 		t.Counts[op.String()]++
 	case vm.SELFDESTRUCT:
 		t.Counts["SELFDESTRUCT"]++
+		t.Suicides = append(t.Suicides, SuicideRec{f.ID, scope.Contract.Address()})
 		if t.balance(env, scope.Contract.Address()).Sign() > 0 {
 			t.Counts["SELFDESTRUCT-FUNDED"]++
 		}
@@ -456,4 +465,43 @@ func trunc(b []byte, n int) []byte {
 		return b[:n]
 	}
 	return b
+}
+
+// CreateRejected classifies a creation frame whose init code ran to completion but whose creation
+// nevertheless failed (flag 0 / failed transaction): "size" and "0xEF" are rolled back by the
+// EVM, "codestore-oog" is not (evm.create skips the revert for ErrCodeStoreOutOfGas).
+func (f *Frame) CreateRejected(maxCodeSize uint64) string {
+	switch {
+	case f.RetLen > maxCodeSize:
+		return "size"
+	case f.RetFirst == 0xEF:
+		return "0xEF"
+	default:
+		return "codestore-oog"
+	}
+}
+
+// RolledBack reports whether the effects of frame id were rolled back by the EVM: the frame or an
+// enclosing frame faulted, or is a creation rejected for code size / 0xEF prefix. txFailed is the
+// outcome of the whole transaction (needed for a top-level creation, which has no opener).
+// The second result names a creation frame on the path that failed with code-store out-of-gas
+// (not rolled back), if any.
+func (t *Tracer) RolledBack(id int, maxCodeSize uint64, txFailed bool) (bool, *Frame) {
+	var oog *Frame
+	for id >= 0 {
+		f := t.Frames[id]
+		if f.Failed {
+			return true, oog
+		}
+		isCreate := f.Kind == "CREATE" || f.Kind == "CREATE2" || (f.Kind == "TOP" && t.TopCreate)
+		flagZero := (f.Flag != nil && f.Flag.IsZero()) || (f.Kind == "TOP" && txFailed)
+		if isCreate && flagZero {
+			if r := f.CreateRejected(maxCodeSize); r != "codestore-oog" {
+				return true, oog
+			}
+			oog = f
+		}
+		id = f.Parent
+	}
+	return false, oog
 }
